@@ -3,7 +3,7 @@
    extracted file into the current directory. *)
 From Coq Require Import Extraction ExtrOcamlBasic.
 From LV Require Import Base.Bytes Base.Utf8 Base.Base64 Model.Codec Model.Response Model.ServerInfo
-  Model.Auth Model.Client Model.Address Model.HeaderEnc Model.Body Model.Mailbox Model.Headers Spec.SmtpData Spec.Xtext Spec.Rfc5322 Spec.Rfc2047 Spec.Rfc2231 Spec.Cte.
+  Model.Auth Model.Client Model.Address Model.HeaderEnc Model.Body Model.Mailbox Model.Headers Model.Builder Spec.Envelope Spec.SmtpData Spec.Xtext Spec.Rfc5322 Spec.Rfc2047 Spec.Rfc2231 Spec.Cte.
 Extraction Language OCaml.
 Extraction "model.ml"
   Codec.encode Codec.wire SmtpData.server_data SmtpData.recv
@@ -21,4 +21,5 @@ Extraction "model.ml"
   Cte.crlf_spec Cte.qp_decode Cte.b64_body_decode Cte.sevenbit_ok Cte.qp_lines_ok Cte.b64_lines_ok
   Mailbox.show_mailbox Mailbox.show_mailboxes Mailbox.parse_mailbox_raw Mailbox.parse_mailbox_list_raw
   Mailbox.mailbox_from_str Mailbox.mailboxes_from_str
-  Headers.run_hops Headers.show_headers.
+  Headers.run_hops Headers.show_headers
+  Builder.build_ops Envelope.spec_build.
